@@ -516,11 +516,7 @@ func ruleSINK1(c *Ctx) {
 			// non-constant: must be !X.hasCustomFormat()
 			okNeg := false
 			if u, ok := ast.Unparen(safe).(*ast.UnaryExpr); ok && u.Op == token.NOT {
-				if c2, ok := ast.Unparen(u.X).(*ast.CallExpr); ok {
-					if cf := Callee(info, c2); cf != nil && cf.Name() == "hasCustomFormat" {
-						okNeg = true
-					}
-				}
+				okNeg = isCustomFormatTest(p, f, u.X, 0)
 			}
 			c.Oblige(key, call.Pos(), okNeg, "non-constant safeASCII argument is not `!hasCustomFormat()`: "+exprString(safe))
 			return true
@@ -1024,4 +1020,59 @@ func sortedKeysUint[V any](m map[uint]V) []uint {
 	}
 	sort.Slice(ks, func(i, j int) bool { return ks[i] < ks[j] })
 	return ks
+}
+
+// isCustomFormatTest reports whether e decides "the time arshaler uses a caller-supplied layout":
+// `X.base == math.MaxUint`, directly, through a predicate method/function whose body is one such return,
+// or through a local defined once by such an expression.
+func isCustomFormatTest(p *Program, f *FuncInfo, e ast.Expr, depth int) bool {
+	info := f.Info()
+	e = ast.Unparen(e)
+	switch x := e.(type) {
+	case *ast.BinaryExpr:
+		if x.Op != token.EQL {
+			return false
+		}
+		for _, pr := range [][2]ast.Expr{{x.X, x.Y}, {x.Y, x.X}} {
+			if fv := SelField(info, pr[0]); fv != nil && fv.Name() == "base" {
+				if v, ok := ConstU64(info, pr[1]); ok && v == ^uint64(0) {
+					return true
+				}
+			}
+		}
+	case *ast.CallExpr:
+		if depth > 1 {
+			return false
+		}
+		if cf := Callee(info, x); cf != nil {
+			if g := p.FuncOf(cf); g != nil && g.Body() != nil {
+				rets := Returns(g.Body())
+				if len(rets) == 1 && len(rets[0].Results) == 1 && len(g.Body().List) == 1 {
+					return isCustomFormatTest(p, g, rets[0].Results[0], depth+1)
+				}
+			}
+		}
+	case *ast.Ident:
+		v := IdentObj(info, x)
+		if v == nil || depth > 1 {
+			return false
+		}
+		var def ast.Expr
+		n := 0
+		InspectNoLit(f.Body(), func(nd ast.Node) bool {
+			if as, ok := nd.(*ast.AssignStmt); ok && len(as.Lhs) == len(as.Rhs) {
+				for i, l := range as.Lhs {
+					if IdentObj(info, l) == v {
+						n++
+						def = as.Rhs[i]
+					}
+				}
+			}
+			return true
+		})
+		if n == 1 {
+			return isCustomFormatTest(p, f, def, depth+1)
+		}
+	}
+	return false
 }
